@@ -75,7 +75,7 @@ PROPS["C05"] = dict(
     lean_props=["SeaQ.Props.C05"],
     lean_obligations=["SeaQ.Lemmas.PrattRound", "SeaQ.Lemmas.PrattBridge"],
     technique="Lean 4 proof: generic print/parse round trip for a precedence-climbing grammar with prefix NOT, non-associative levels, mixfix BETWEEN/LIKE..ESCAPE and delimited constructs (induction on expression size, fuel monotonicity), plus a bridge reducing licensing of all trees to a finite obligation on (dialect table, policy cells) decided by kernel evaluation on cells observed exhaustively from the current crate; printer tied by differential token-stream comparison; independent reference parser as oracle",
-    level_text="Machine-checked proof that every well-formed expression tree (any depth; NOT, every binary operator incl. Postgres/SQLite extension and custom operators, the nested-binary encodings of BETWEEN..AND and LIKE..ESCAPE, function calls, tuples, CASE, CAST, sub-selects) printed with the crate's parenthesis policy re-parses, under the dialect's binding powers / non-associativity / mixfix forms, to exactly the tree that was built. The policy is not copied: it is observed from the compiled crate on every run for every (outer operator, child kind, side, backend) and the finite licensing obligation is re-decided by the kernel, so a policy change that is licensed stays green and one that is not breaks the proof and is turned into a concrete expression. SQLite and Postgres in full; MySQL with the recorded exception (bare arithmetic pattern after LIKE).",
+    level_text="Machine-checked proof that every well-formed expression tree (any depth; NOT, every binary operator incl. Postgres/SQLite extension and custom operators, the nested-binary encodings of BETWEEN..AND and LIKE..ESCAPE, function calls, tuples, CASE, CAST, sub-selects) printed with the crate's parenthesis policy re-parses, under the dialect's binding powers / non-associativity / mixfix forms, to exactly the tree that was built. The policy is not copied: it is observed from the compiled crate on every run for every (outer operator, child kind, side, backend) and the finite licensing obligation is re-decided by the kernel, so a policy change that is licensed stays green and one that is not breaks the proof and is turned into a concrete expression. All three dialects in full (the MySQL exception — a bare arithmetic pattern after LIKE — was repaired in sea-query: fix 03bd74c).",
     level_note="Trusted: Lean kernel; the three dialect tables (Model/Dialects.lean, transcribed from the engines' grammars; Postgres' b_expr lower bound of BETWEEN is approximated by a stricter threshold); the observation that the crate's policy depends only on (outer operator, child kind, side) — validated by the random-tree differential run (model printing vs crate rendering, token for token); option-more-parentheses only removes drops (checked in the thorough tier by a second build). AsEnum (transparent on MySQL/SQLite) and the empty-IN rewrite are outside the Lean model and covered by the reference-parser oracle only.",
     design_ref="§6 C05",
     scope="all well-formed trees x 3 dialect tables; policy cells exhaustive",
@@ -215,7 +215,7 @@ PROPS["C08"] = dict(
     pregen=[("gen-policy", "SeaQ/Gen/Policy.lean")],
     lean_props=["SeaQ.Props.C08", "SeaQ.Props.C05Stmt"],
     lean_obligations=["SeaQ.Lemmas.Balance", "SeaQ.Lemmas.RenderBalance", "SeaQ.Lemmas.StmtPolicy"],
-    technique="Lean 4 proofs over the statement rendering model: every statement of the model (all five kinds, any nesting, three dialects) is written with balanced parentheses and every clause of a SELECT is balanced on its own, so clause keywords stand at depth 0 (render_balanced, select_clauses_balanced: mutual structural induction over the 41 render functions); the rendering of a SELECT is the concatenation of a clause list whose tags are a sub-sequence of the grammar's clause sequence (each clause at most once, in grammar order, present iff given) for every statement without a named window, the MySQL UPDATE re-routing (condition once, as JOIN .. ON), dialect-only constructs (DISTINCT ON, DISTINCTROW, RETURNING, locking, enum casts, VALUES ROW); expressions inside statements: for every operator tree of any depth over arbitrary leaves the statement renderer writes exactly the tokens of C05's abstract printer under the parenthesis policy observed from the crate (stmt_prints_as_pratt: the renderer's own decisions equal the observed cells, a finite obligation re-decided by the kernel on every run), hence they re-parse to the tree that was built under each dialect's operator table (stmt_roundtrip_*; MySQL with C05's recorded exception); the model is tied to the crate by differential runs; that the flat text parses into these clauses is decided by a reference parser of each dialect's statement grammar (precedence tables of C05): the tree of the crate's text must equal the tree of an independent, fully explicit rendering of the same builder calls",
+    technique="Lean 4 proofs over the statement rendering model: every statement of the model (all five kinds, any nesting, three dialects) is written with balanced parentheses and every clause of a SELECT is balanced on its own, so clause keywords stand at depth 0 (render_balanced, select_clauses_balanced: mutual structural induction over the 41 render functions); the rendering of a SELECT is the concatenation of a clause list whose tags are a sub-sequence of the grammar's clause sequence (each clause at most once, in grammar order, present iff given) for every statement without a named window, the MySQL UPDATE re-routing (condition once, as JOIN .. ON), dialect-only constructs (DISTINCT ON, DISTINCTROW, RETURNING, locking, enum casts, VALUES ROW); expressions inside statements: for every operator tree of any depth over arbitrary leaves the statement renderer writes exactly the tokens of C05's abstract printer under the parenthesis policy observed from the crate (stmt_prints_as_pratt: the renderer's own decisions equal the observed cells, a finite obligation re-decided by the kernel on every run), hence they re-parse to the tree that was built under each dialect's operator table (stmt_roundtrip_*); the model is tied to the crate by differential runs; that the flat text parses into these clauses is decided by a reference parser of each dialect's statement grammar (precedence tables of C05): the tree of the crate's text must equal the tree of an independent, fully explicit rendering of the same builder calls",
     level_text="Machine-checked (model): balanced parentheses for every statement (given caller-supplied raw text balanced on its own, no template), clause list = rendering, clause order / uniqueness / presence for SELECT, re-routing and dialect exclusivity lemmas, operator trees inside statements re-parse to themselves (C05 carried over to the statement renderer). Validated on generated statements (MySQL, Postgres, SQLite as third leg): parse of inline and parameterised text under the dialect's reference grammar and tree equality with the explicit reference rendering. The grammars are the trusted specification (no MySQL / Postgres engine in the sandbox).",
     level_note=_STMT_MODEL_NOTE + " The reference grammar (harness/src/sqlparse.rs), the explicit reference renderer (harness/src/explicit.rs) and the operator levels of C05 are trusted specifications.",
     design_ref="§6 C08",
